@@ -12,4 +12,4 @@ with open("/verif/known_findings.txt", "a") as f:
         line = "finding: property=%s match=%s :: %s\n" % (pid, json.dumps(m, sort_keys=True, separators=(",", ":")), what.format(**{k: w.get(k, "") for k in w}))
         if line not in seen:
             seen.add(line); f.write(line); n += 1
-print("added", n)
+print("added", n, "- CHECK that replays/ held only violations of the UNCHANGED tree (clear replays/<P>-* before the run)")
